@@ -37,6 +37,21 @@ if [ "$id" = c04 ] && [ "$MODE" != replay ]; then
   export VERIF_SEQ_PARTIAL=$HERE/.work/c04seq$TAG.json
 fi
 if [ "$MODE" = replay ]; then
-  VERIF_SEQ_REPLAY=${3:?file} VERIF_REPLAY=${3} exec "$bin" quick
+  f=${3:?replay file}
+  if grep -q '"config":' "$f"; then
+    # a sequential (SEQ) counterexample: an operation list
+    if [ "$id" = c04 ]; then
+      go build $VERIF_MODFLAG -o $HERE/.work/bin/c04seq$TAG ./checks/c04seq || exit 2
+      VERIF_GUARDED=1 VERIF_SEQ_REPLAY=$f exec $HERE/.work/bin/c04seq$TAG quick
+    fi
+    VERIF_GUARDED=1 VERIF_SEQ_REPLAY=$f exec "$bin" quick
+  fi
+  if grep -q '"choices":' "$f"; then
+    # a schedule (SCHED) counterexample: a choice sequence, re-executed with tracing
+    tier=quick; grep -q -- "-thorough-" <<< "$f" && tier=thorough
+    VERIF_REPLAY=$f exec "$bin" $tier
+  fi
+  # a family / enumeration counterexample: the input is named in the file; re-run the check
+  VERIF_GUARDED=1 exec "$bin" quick
 fi
 exec "$bin" "$MODE"
